@@ -63,8 +63,9 @@ var props = map[string]propCfg{
 		Scenarios: []scenCfg{
 			{Name: "filter", Quick: 2500, Thorough: 150000, Batch: 100},
 			{Name: "c09", Quick: 1200, Thorough: 100000, Batch: 50},
+			{Name: "c07i", Quick: 1500, Thorough: 120000, Batch: 50},
 		},
-		Rule: "c09: interactive sessions ending in accept: printed lines = the model's selection in selection order (or the current line), exit status 0/1. filter: one evaluation = one simulated `fzf --filter` process (real option parser, Run, reader, poller, matcher or streaming path, printer) with seeded option set, input, read() cut plan and worker schedule; stdout bytes and exit status compared with a framing model; " +
+		Rule: "c07i: interactive sessions with --print-query / --expect / --print0 / --accept-nth (AWK and string delimiters) / --select-1 / --exit-0 / --query ending in enter, an expect key, print-query, accept-or-print-query, accept-non-empty, esc or ctrl-c: stdout records, their order and the exit status vs a framing model. c09: interactive sessions ending in accept: printed lines = the model's selection in selection order (or the current line), exit status 0/1. filter: one evaluation = one simulated `fzf --filter` process (real option parser, Run, reader, poller, matcher or streaming path, printer) with seeded option set, input, read() cut plan and worker schedule; stdout bytes and exit status compared with a framing model; " +
 			"distinct = distinct event-log hash; non-trivial = at least one preemption",
 		RealStub: map[string][]string{
 			"real": {"ParseOptions", "Run (filter mode)", "Reader + poller", "ChunkList", "Matcher.scan", "Merger", "printer (os.Stdout redirected to a file)"},
@@ -75,8 +76,9 @@ var props = map[string]propCfg{
 	"C18": {
 		Scenarios: []scenCfg{
 			{Name: "hist", Quick: 20000, Thorough: 1500000, Batch: 1000},
+			{Name: "c18s", Quick: 600, Thorough: 60000, Batch: 50},
 		},
-		Rule: "hist: one evaluation = a seeded sequence of sessions over one history file (initial content missing/empty/with or without trailing newline/longer than the limit), each session = --history/--history-size parsed by the real option parser in either order, then previous/next/edit steps and at most one submit, compared step by step and byte by byte with a list-of-strings model; non-trivial = at least one non-empty query was submitted",
+		Rule: "c18s: sequences of whole simulated interactive sessions with --history (typing, ctrl-p/ctrl-n, enter/esc/ctrl-c, with and without a match): the file is rewritten iff the session exits with status <= 1 and a non-empty query. hist: one evaluation = a seeded sequence of sessions over one history file (initial content missing/empty/with or without trailing newline/longer than the limit), each session = --history/--history-size parsed by the real option parser in either order, then previous/next/edit steps and at most one submit, compared step by step and byte by byte with a list-of-strings model; non-trivial = at least one non-empty query was submitted",
 		RealStub: map[string][]string{
 			"real": {"History", "ParseOptions (--history, --history-size)", "file system (per-run temp dir)"},
 			"stub": {"terminal actions prev-history/next-history/accept are replayed by the harness at object level (whole sessions run in the sys scenarios)"},
